@@ -564,6 +564,22 @@ def check_routes(ctx, prop):
             for xv in (-1, 0, 0.0, -2.5):
                 cases.append((e, [(2, xv), (3, 2)], 2))
                 cases.append((e, [(3, 1.5), (2, xv)], 3))
+    if prop in ('C03', 'C04', 'C06', 'C07'):
+        # powers whose VALUE is exactly one although the base is not (exponent exactly zero at the point), and bases
+        # that evaluate to exactly one without being the constant 1: a shortcut keyed on the wrong quantity shows here
+        x, y = ('V', 2), ('V', 3)
+        zero_exp = [('Minus', x, y), ('Mul', [x, ('C', 0)]), ('Sin', ('Minus', x, y)), ('Log', ('Divide', x, y), E),
+                    ('Minus', ('NthPow', x, 2), ('Mul', [x, y]))]
+        for z in zero_exp:
+            for base in (('C', 2), ('C', 0.5), ('C', 3.0), ('Add', [('C', 1), ('C', 1)]), ('Exp', ('C', 1), E), x, ('Add', [x, y])):
+                e0 = ('Power', base, z)
+                for e1 in (e0, ('Add', [e0, ('Mul', [x, y])]), ('Mul', [e0, y])):
+                    for pv in (1.5, 2, 0.25):
+                        cases.append((e1, [(2, pv), (3, pv)], rng.choice([2, 3])))
+        for base in (('Divide', x, y), ('Add', [('Minus', x, y), ('C', 1)]), ('Cos', ('Minus', x, y)), ('Exp', ('Minus', x, y), E)):
+            for w in (('C', 2.5), ('C', 3), y, ('Add', [x, y]), ('Log', y, E)):
+                for pv in (1.5, 2, 3):
+                    cases.append((('Power', base, w), [(2, pv), (3, pv)], rng.choice([2, 3])))
     if prop == 'C17':
         # points with missing coordinates, extra coordinates
         more = []
@@ -720,6 +736,13 @@ def check_routes(ctx, prop):
         bad_parameters(ctx, rep)
     if prop == 'C06':
         object_equalities(rep, [(e, p, v) for e, p, v, _ in bundles])
+    if prop == 'C17':
+        # the same questions on USED objects that share leaves and sub-expressions with other expressions (a constructor
+        # that edits an operand's variable-name set in place surfaces as a bare Exception from a later bare-number call)
+        import props2
+        props2.history_correspondence(ctx, rep, sizes(tier, 200, 3000),
+                                      ('at', 'atnum', 'located', 'pat', 'dat', 'datnum', 'dfat', 'dfcompat', 'pexpr', 'dexpr', 'dfcompexpr'),
+                                      maxlen=sizes(tier, 10, 24), what='sequence', disturb=())
     if prop in ('C03', 'C04', 'C06', 'C07'):
         import props2
         keep = {'C03': ('pat', 'dat'), 'C04': ('located', 'dfat', 'at'),
@@ -773,7 +796,10 @@ def bad_parameters(ctx, rep):
                 for inner in ('0', '1'):
                     for outer in ('0', '1', '2', '3'):
                         idxs.append(b.add('BADPARAM %s %s %s %s %s %s' % (cls, sx.num_sx(par), sx.num_sx(xv), sx.num_sx(yv), inner, outer)))
+    err = b.add('ERRCLASSES')
     b.run(model=False)
+    if b.impl[err] != 'ok':
+        rep.oracle_fail('exception classes: %s' % b.impl[err], b, [err])
     for i in idxs:
         rep.cases += 1
         r = b.impl[i]
@@ -928,6 +954,13 @@ def check_C05(ctx):
         o = core.parse_outcome(b2.impl[j])
         if o[0] == 'PYERR' and 'Overflow' not in o[1]:
             rep.oracle_fail('differentiating as_expression() once more raised %s' % o[1], b2, [j])
+    # symbolic answers on USED objects: as_expression() of an early Differential's component after the differential was
+    # located, after other components were taken, after evaluations at other points (judged: the symbolic operations;
+    # executed in between, not judged: the numeric ones)
+    import props2
+    props2.history_correspondence(ctx, rep, sizes(tier, 150, 3000), ('pexpr', 'dexpr', 'dfcompexpr'),
+                                  maxlen=sizes(tier, 10, 24), what='sequence',
+                                  disturb=('at', 'located', 'pat', 'dat', 'dfat', 'dfcompat'))
     return rep
 
 
